@@ -420,6 +420,95 @@ def rule5(ctx, rep, fl):
         )
 
 
+def rule6(ctx, rep):
+    """what _delay dereferences must be what the compliance gate validates (added after seeded change C20-2: rule_10
+    delegated to dawgie.schedule(), which accepts a dow/day event without a time of day; _delay then raises AttributeError)"""
+    prog = ctx.prog
+    d = prog.nfunc(SCHED + '._delay')
+    g = prog.nfunc('dawgie.tools.compliant.rule_10')
+    rep.analysed(d, g)
+    with rep.rule(
+        'R-C20-6',
+        'every moment field that _delay dereferences outside the boot branch is type-checked by compliant.rule_10 (time is a datetime.time whenever boot is None; day/dom/dow are None or of their type; exactly one of boot/day/dom/dow is given)',
+        floor=4,
+        breaks='an event specification accepted by the compliance gate makes _delay raise (AttributeError on a missing time of day, TypeError on a wrong field type)',
+    ) as r:
+        # fields dereferenced by _delay: <when>.moment.<field>.<attr>
+        deref = set()
+        for n in d.own_nodes():
+            if isinstance(n, ast.Attribute) and isinstance(n.value, ast.Attribute) and isinstance(n.value.value, ast.Attribute) and n.value.value.attr == 'moment':
+                deref.add(n.value.attr)
+        used = set()
+        for n in d.own_nodes():
+            if isinstance(n, ast.Attribute) and isinstance(n.value, ast.Attribute) and n.value.attr == 'moment':
+                used.add(n.attr)
+        r.extra['fields_dereferenced'] = sorted(deref)
+        r.extra['fields_used'] = sorted(used)
+
+        # rule_10 and the helpers newly extracted from it (functions not in the baseline list) are searched together
+        from ..inline import baseline
+
+        cands = [g]
+        for e in ctx.cg.callees(g.qname, kinds={'direct'}):
+            h = prog.funcs.get(e.dst)
+            if h is not None and h.module is g.module and h.qname not in baseline() and all(h.qname != c.qname for c in cands):
+                cands.append(prog.nfunc(h.qname))
+
+        class F(Flow):
+            def __init__(s):
+                super().__init__()
+                s.checks = []  # (field, type text, state)
+                s.sums = 0
+
+            @staticmethod
+            def _fld(e):
+                # <x>.moment.<field>  or  <moment>.<field>
+                if isinstance(e, ast.Attribute) and e.attr in ('boot', 'day', 'dom', 'dow', 'time'):
+                    return e.attr
+                return None
+
+            def on_test(s, e, st):
+                if isinstance(e, ast.Compare) and len(e.ops) == 1 and s._fld(e.left) == 'boot' and isinstance(e.comparators[0], ast.Constant) and e.comparators[0].value is None:
+                    if isinstance(e.ops[0], ast.Is):
+                        return (st | {'bootnone'},), (st | {'boot'},)
+                    if isinstance(e.ops[0], ast.IsNot):
+                        return (st | {'boot'},), (st | {'bootnone'},)
+                return (st,), (st,)
+
+            def on_call(s, call, st):
+                if isinstance(call.func, ast.Name) and call.func.id == 'isinstance' and len(call.args) == 2 and s._fld(call.args[0]):
+                    s.checks.append((s._fld(call.args[0]), norm(call.args[1]), st))
+                if isinstance(call.func, ast.Name) and call.func.id == 'sum':
+                    s.sums += 1
+                return (st,)
+
+        checks, sums = [], 0
+        for c in cands:
+            fl = F()
+            fl.run(c.node, frozenset())
+            checks += fl.checks
+            sums += fl.sums
+        r.extra['functions_searched'] = [c.qname for c in cands]
+
+        r.instance()
+        ok_time = any(f == 'time' and 'datetime.time' in t and 'boot' not in st for f, t, st in checks)
+        r.check(
+            ok_time or 'time' not in deref,
+            f'{g.qname}:time-checked',
+            where(g),
+            'rule_10 requires isinstance(moment.time, datetime.time) whenever boot is None',
+            f'_delay dereferences moment.time ({sorted(deref)}) for every non-boot event, but rule_10 evaluates no isinstance(<moment>.time, datetime.time) on the boot-is-None path: an event without a time of day is accepted and _delay raises AttributeError',
+        )
+        for fld, typ in (('day', 'datetime.date'), ('dom', 'int'), ('dow', 'int')):
+            if fld not in used:
+                continue
+            r.instance()
+            ok = any(f == fld and typ in t for f, t, _st in checks)
+            r.check(ok, f'{g.qname}:{fld}-checked', where(g), f'isinstance(<moment>.{fld}, {typ}) evaluated', f'rule_10 does not require moment.{fld} to be a {typ} (or None), but _delay uses it')
+        r.instance()
+        r.check(sums > 0, f'{g.qname}:exactly-one', where(g), 'the number of given moment kinds is counted', 'rule_10 does not count how many of boot/day/dom/dow are given (exactly one must be): _delay would combine or skip moments')
+
+
 def check(ctx):
     rep = Report(
         PID,
@@ -437,6 +526,7 @@ def check(ctx):
     fl = rule3(ctx, rep)
     rule4(ctx, rep)
     rule5(ctx, rep, _Due(ctx.prog, ctx.prog.nfunc(SCHED + '.defer')))
+    rule6(ctx, rep)
     return rep
 
 
